@@ -4,6 +4,7 @@ import (
 	"crypto"
 	stded "crypto/ed25519"
 	"crypto/sha512"
+	"encoding/hex"
 	"fmt"
 	"io"
 	"math/big"
@@ -52,6 +53,7 @@ type Entry struct {
 	ML  int    `json:"ml,omitempty"`  // message length
 	P   int    `json:"p,omitempty"`
 	Q   int    `json:"q,omitempty"`
+	X   string `json:"x,omitempty"` // torS: the scalar half, hex, little endian
 }
 
 // Op is one library call with completely determined inputs.
@@ -251,6 +253,13 @@ func buildEntries(opSeed uint64, o Opt, es []Entry) []triple {
 				s.Add(s, top)
 			}
 			R := bcAdd(bcScalarMult(s, bcB), bcTorsion[(e.Q>>1)%8])
+			t.sig = append(bcEncode(R), intToLE32(s)...)
+		case "torS":
+			// as "tor", with a prescribed scalar (boundary values of the scalar arithmetic)
+			t.key = append([]byte{}, smallOrderEnc[e.P%14]...)
+			sb, _ := hex.DecodeString(e.X)
+			s := new(big.Int).Mod(leToInt(resize(sb, 32, 0)), bcL)
+			R := bcAdd(bcScalarMult(s, bcB), bcTorsion[e.Q%8])
 			t.sig = append(bcEncode(R), intToLE32(s)...)
 		case "tor0":
 			// small-order key, small-order R, S = 0: valid under ZIP-215 only
